@@ -237,6 +237,40 @@ CLAIMED['C18'] = dict(
          'dependencies, linearizability as a whole.',
     ref='4 C18',
     note='assumes GIL atomicity of single attribute stores')
+CLAIMED['C10'] = dict(
+    technique='loop-bound agreement (linear forms), store-site query, '
+              'provider table, probe structure, AST twin comparison',
+    text='Partial (structural necessary conditions): in both item loops the '
+         'element read and sequence-index use the loop variable, first/last '
+         'markers compare with the loop\'s own bounds, sequence-start is '
+         'cleared after a rendered element and never on the skip path; '
+         'every literal sequence-* key is stored through the prefix-aware '
+         'mapping and both prefix strippers strip exactly "sequence-"; '
+         'every documented variable and statistic has a provider; an empty '
+         'sequence returns the else body (or nothing) before any push; the '
+         'per-item push decision is identical in both renderers. Not '
+         'decided: the documented values (number, letters, roman, even/odd, '
+         'first-x/last-x run boundaries).',
+    ref='4 C10',
+    note='item loops located as the range() loops that render the section')
+CLAIMED['C11'] = dict(
+    technique='linear normal forms of opt() arguments, published keys and '
+              'the formula sites inside opt; parameter-read and flag-guard '
+              'queries',
+    text='Narrow: at every site the next batch is requested at '
+         'end+1-overlap and the previous one up to start-1+overlap with the '
+         'same size/orphan/sequence; *-start-index/-end-index/-size follow '
+         'one formula at all sites; the five parameters are read through '
+         'int_param, next-/previous-sequence are set only under index == '
+         'last / first, the displayed range is range(start-1, end); inside '
+         'opt the formula sites (end = start+size-1, start = end+1-size, '
+         'size = end+1-start, probes at end+orphan-1 / start-1 / end-1, '
+         'end >= start) match the documented window. Not decided: the '
+         'window arithmetic of opt as a whole over the 5-dimensional '
+         'parameter space (tiling, termination of following next links).',
+    ref='4 C11',
+    note='linear forms only; a non-linear rewrite is an ANALYSIS-ERROR, not '
+         'a pass')
 PENDING = {}
 NA = {
     'C16': 'numerical identities over run-time data (sums, means, n vs n-1, '
